@@ -1698,16 +1698,15 @@ theorem plan_inv (op : Op) (s : St) (b' : Book) (acts : List BankAction) (h : pl
 def attrOK (x : Attr) : Prop := x.t2pc ≤ 100 ∧ x.t1pc ≤ 100 ∧ x.tpc ≤ 100 ∧ x.t2sc ≤ 101 ∧ x.t1sc ≤ 101 ∧ x.tsc ≤ 101
 
 structure AuxInv (b : Book) : Prop where
-  sound : b.soundGp = true
   ab : b.gp.A + b.gp.B ≤ 100
   dapp : ∀ g, b.gp2 = some g → g.dappFee ≤ 100
   attrs : ∀ x ∈ b.attrs, attrOK x
   kpos : 0 < b.K
   kprev : b.K ≤ (b.prevPool.filter (fun p => p.status.active)).length
 
-theorem AuxInv_of_eq (b b' : Book) (h : AuxInv b) (h1 : b'.soundGp = b.soundGp) (h2 : b'.gp = b.gp) (h3 : b'.gp2 = b.gp2)
+theorem AuxInv_of_eq (b b' : Book) (h : AuxInv b) (h2 : b'.gp = b.gp) (h3 : b'.gp2 = b.gp2)
     (h4 : b'.attrs = b.attrs) (h5 : b'.K = b.K) (h6 : b'.prevPool = b.prevPool) : AuxInv b' :=
-  ⟨by rw [h1]; exact h.sound, by rw [h2]; exact h.ab, by rw [h3]; exact h.dapp, by rw [h4]; exact h.attrs,
+  ⟨by rw [h2]; exact h.ab, by rw [h3]; exact h.dapp, by rw [h4]; exact h.attrs,
    by rw [h5]; exact h.kpos, by rw [h5, h6]; exact h.kprev⟩
 
 theorem mem_putAttr {l : List Attr} {y x : Attr} (h : x ∈ putAttr l y) : x = y ∨ x ∈ l := by
@@ -1789,23 +1788,23 @@ theorem commitPlan_aux (s : St) (b' : Book) (acts : List BankAction) (h : commit
           have ha := quitLoop_attrs (decide (s.book.view > OntVerif.Gen.Gov.NEW_VERSION_VIEW)) s.book.gp.penalty s.book.pool
             { pool := s.book.pool, auths := s.book.auths, attrs := s.book.attrs, peers := [], acts := [] } hi.attrs
           rw [hacc] at hp ha
-          refine ⟨hi.sound, hi.ab, hi.dapp, ha, hi.kpos, ?_⟩
+          refine ⟨hi.ab, hi.dapp, ha, hi.kpos, ?_⟩
           show s.book.K ≤ (s.book.pool.filter (fun p => p.status.active)).length
           simp only [List.nil_append] at hp
           rw [← hp]; omega
 
 theorem plan_aux (op : Op) (s : St) (b' : Book) (acts : List BankAction) (h : plan op s = .ok (b', acts))
     (hi : AuxInv s.book) : AuxInv b' := by
-  have frame : ∀ b'' : Book, b''.soundGp = s.book.soundGp → b''.gp = s.book.gp → b''.gp2 = s.book.gp2 →
+  have frame : ∀ b'' : Book, b''.gp = s.book.gp → b''.gp2 = s.book.gp2 →
       b''.attrs = s.book.attrs → b''.K = s.book.K → b''.prevPool = s.book.prevPool → AuxInv b'' :=
-    fun b'' h1 h2 h3 h4 h5 h6 => AuxInv_of_eq _ _ hi h1 h2 h3 h4 h5 h6
+    fun b'' h2 h3 h4 h5 h6 => AuxInv_of_eq _ _ hi h2 h3 h4 h5 h6
   have attrUpd : ∀ (y : Attr), attrOK y → AuxInv { s.book with attrs := putAttr s.book.attrs y } :=
-    fun y hy => ⟨hi.sound, hi.ab, hi.dapp, putAttr_ok _ _ hi.attrs hy, hi.kpos, hi.kprev⟩
+    fun y hy => ⟨hi.ab, hi.dapp, putAttr_ok _ _ hi.attrs hy, hi.kpos, hi.kprev⟩
   cases op with
   | ht n =>
     simp only [plan] at h; split at h
     · cases h
-    · cases h; exact frame _ rfl rfl rfl rfl rfl rfl
+    · cases h; exact frame _ rfl rfl rfl rfl rfl
   | fee frm n => simp only [plan] at h; cases h; exact hi
   | reg w p a pos =>
     simp only [plan] at h
@@ -1816,15 +1815,15 @@ theorem plan_aux (op : Op) (s : St) (b' : Book) (acts : List BankAction) (h : pl
     split at h
     · split at h; · cases h
       split at h; · cases h
-      cases h; exact frame _ rfl rfl rfl rfl rfl rfl
-    · cases h; exact frame _ rfl rfl rfl rfl rfl rfl
+      cases h; exact frame _ rfl rfl rfl rfl rfl
+    · cases h; exact frame _ rfl rfl rfl rfl rfl
   | unreg w p a =>
     simp only [plan] at h
     split at h; · cases h
     split at h; · cases h
     split at h; · cases h
     split at h; · cases h
-    cases h; exact frame _ rfl rfl rfl rfl rfl rfl
+    cases h; exact frame _ rfl rfl rfl rfl rfl
   | appr w p =>
     simp only [plan] at h
     split at h; · cases h
@@ -1832,19 +1831,19 @@ theorem plan_aux (op : Op) (s : St) (b' : Book) (acts : List BankAction) (h : pl
     split at h; · cases h
     split at h; · cases h
     split at h; · cases h
-    cases h; exact frame _ rfl rfl rfl rfl rfl rfl
+    cases h; exact frame _ rfl rfl rfl rfl rfl
   | rej w p =>
     simp only [plan] at h
     split at h; · cases h
     split at h; · cases h
     split at h; · cases h
-    cases h; exact frame _ rfl rfl rfl rfl rfl rfl
+    cases h; exact frame _ rfl rfl rfl rfl rfl
   | black w ps =>
     simp only [plan] at h
     split at h; · cases h
     split at h; · cases h
     rename_i pool bl commit hb
-    have h1 : AuxInv { s.book with pool := pool, black := bl } := frame _ rfl rfl rfl rfl rfl rfl
+    have h1 : AuxInv { s.book with pool := pool, black := bl } := frame _ rfl rfl rfl rfl rfl
     split at h
     · exact commitPlan_aux _ _ _ h h1
     · cases h; exact h1
@@ -1852,7 +1851,7 @@ theorem plan_aux (op : Op) (s : St) (b' : Book) (acts : List BankAction) (h : pl
     simp only [plan] at h
     split at h; · cases h
     split at h; · cases h
-    cases h; exact frame _ rfl rfl rfl rfl rfl rfl
+    cases h; exact frame _ rfl rfl rfl rfl rfl
   | quit w p a =>
     simp only [plan] at h
     split at h; · cases h
@@ -1860,22 +1859,22 @@ theorem plan_aux (op : Op) (s : St) (b' : Book) (acts : List BankAction) (h : pl
     split at h; · cases h
     split at h; · cases h
     split at h; · cases h
-    cases h; exact frame _ rfl rfl rfl rfl rfl rfl
+    cases h; exact frame _ rfl rfl rfl rfl rfl
   | auth w a items =>
     simp only [plan] at h
     split at h; · cases h
     split at h; · cases h
-    cases h; exact frame _ rfl rfl rfl rfl rfl rfl
+    cases h; exact frame _ rfl rfl rfl rfl rfl
   | unauth w a items =>
     simp only [plan] at h
     split at h; · cases h
     split at h; · cases h
-    cases h; exact frame _ rfl rfl rfl rfl rfl rfl
+    cases h; exact frame _ rfl rfl rfl rfl rfl
   | wd w a items =>
     simp only [plan] at h
     split at h; · cases h
     split at h; · cases h
-    cases h; exact frame _ rfl rfl rfl rfl rfl rfl
+    cases h; exact frame _ rfl rfl rfl rfl rfl
   | commit w =>
     simp only [plan] at h
     split at h; · cases h
@@ -1888,7 +1887,7 @@ theorem plan_aux (op : Op) (s : St) (b' : Book) (acts : List BankAction) (h : pl
     split at h; · cases h
     split at h; · cases h
     split at h; · cases h
-    cases h; exact frame _ rfl rfl rfl rfl rfl rfl
+    cases h; exact frame _ rfl rfl rfl rfl rfl
   | redpos w p a n =>
     simp only [plan] at h
     split at h; · cases h
@@ -1902,9 +1901,9 @@ theorem plan_aux (op : Op) (s : St) (b' : Book) (acts : List BankAction) (h : pl
     split at h; · cases h
     split at h; · cases h
     split at h
-    · cases h; exact frame _ rfl rfl rfl rfl rfl rfl
-    · cases h; exact frame _ rfl rfl rfl rfl rfl rfl
-    · cases h; exact frame _ rfl rfl rfl rfl rfl rfl
+    · cases h; exact frame _ rfl rfl rfl rfl rfl
+    · cases h; exact frame _ rfl rfl rfl rfl rfl
+    · cases h; exact frame _ rfl rfl rfl rfl rfl
     · cases h
   | maxauth w p a n =>
     simp only [plan] at h
@@ -1956,10 +1955,9 @@ theorem plan_aux (op : Op) (s : St) (b' : Book) (acts : List BankAction) (h : pl
     split at h; · cases h
     split at h; · cases h
     cases h
-    refine ⟨hi.sound, ?_, hi.dapp, hi.attrs, hi.kpos, hi.kprev⟩
+    refine ⟨?_, hi.dapp, hi.attrs, hi.kpos, hi.kprev⟩
     show g.A + g.B ≤ 100
-    have hs := hi.sound
-    simp only [gpSumBad, hs, if_true, decide_eq_true_eq] at hbad
+    simp only [gpSumBad, decide_eq_true_eq] at hbad
     omega
   | gp2 w g =>
     simp only [plan] at h
@@ -1969,7 +1967,7 @@ theorem plan_aux (op : Op) (s : St) (b' : Book) (acts : List BankAction) (h : pl
     rename_i hbad
     split at h; · cases h
     cases h
-    refine ⟨hi.sound, hi.ab, ?_, hi.attrs, hi.kpos, hi.kprev⟩
+    refine ⟨hi.ab, ?_, hi.attrs, hi.kpos, hi.kprev⟩
     intro g' hg'
     have : g' = g := by
       have : some g = some g' := hg'
@@ -1979,11 +1977,11 @@ theorem plan_aux (op : Op) (s : St) (b' : Book) (acts : List BankAction) (h : pl
     simp only [plan] at h
     split at h; · cases h
     split at h; · cases h
-    cases h; exact frame _ rfl rfl rfl rfl rfl rfl
+    cases h; exact frame _ rfl rfl rfl rfl rfl
   | gas w a =>
     simp only [plan] at h
     split at h; · cases h
-    cases h; exact frame _ rfl rfl rfl rfl rfl rfl
+    cases h; exact frame _ rfl rfl rfl rfl rfl
   | tpen w p a =>
     simp only [plan] at h
     split at h; · cases h
@@ -2088,9 +2086,9 @@ theorem run_inv (ops : List Op) (s : St) (hp : PosInv s.book) (ha : AuxInv s.boo
     obtain ⟨h1, h2⟩ := exec_inv op s hp ha
     exact ih _ h1 h2
 
-/-- the genesis state satisfies both invariants (distinct peer ids, at least one peer, repaired `A + B` check) -/
+/-- the genesis state satisfies both invariants (distinct peer ids, at least one peer) -/
 theorem init_inv (g : Genesis) (hn : (g.peers.map (·.1)).Nodup) (hne : g.peers ≠ []) (b0 : Book)
-    (hb0 : b0 = { initBook g with soundGp := true }) : PosInv b0 ∧ AuxInv b0 := by
+    (hb0 : b0 = initBook g) : PosInv b0 ∧ AuxInv b0 := by
   let pool : List Peer := g.peers.map fun (x : Nat × Nat × Nat) =>
       ({ id := x.1, owner := x.2.1, status := .consensus, initPos := x.2.2, totalPos := 0 } : Peer)
   have hids : ids pool = g.peers.map (·.1) := by
@@ -2106,7 +2104,6 @@ theorem init_inv (g : Genesis) (hn : (g.peers.map (·.1)).Nodup) (hne : g.peers 
   have hb6 : b0.K = g.peers.length := by rw [hb0]; rfl
   have hb7 : b0.gp.A + b0.gp.B ≤ 100 := by
     rw [hb0]; show OntVerif.Gen.Gov.INIT_A + OntVerif.Gen.Gov.INIT_B ≤ 100; decide
-  have hb8 : b0.soundGp = true := by rw [hb0]
   constructor
   · refine ⟨by rw [hb1, hids]; exact hn, by rw [hb2, hids]; exact hn, ?_, ?_, ?_, ?_⟩
     · intro x hx; rw [hb3] at hx; simp at hx
@@ -2119,7 +2116,7 @@ theorem init_inv (g : Genesis) (hn : (g.peers.map (·.1)).Nodup) (hne : g.peers 
       · intro e; rw [(hall q hq).1] at e; cases e
       · intro _; rw [hb3]; simp [asum]
       · intro hs; rw [(hall q hq).1] at hs; cases hs
-  · refine ⟨hb8, hb7, ?_, ?_, ?_, ?_⟩
+  · refine ⟨hb7, ?_, ?_, ?_, ?_⟩
     · intro g' hg'; rw [hb4] at hg'; cases hg'
     · intro x hx; rw [hb5] at hx; simp at hx
     · rw [hb6]
